@@ -10,9 +10,10 @@ import common as C
 from gen import c13_layout as L
 
 PROPERTY = "C13"
-LEAN_MODULES = ["LccModel.Props.C13", "LccModel.Props.C13Scan"]
-PROPS_FILES = ["LccModel/Props/C13.lean", "LccModel/Props/C13Scan.lean"]
-NAMESPACES = {"LccModel/Props/C13.lean": "LccModel.C13", "LccModel/Props/C13Scan.lean": "LccModel.C13Scan"}
+LEAN_MODULES = ["LccModel.Props.C13", "LccModel.Props.C13Scan", "LccModel.Props.C13Params"]
+PROPS_FILES = ["LccModel/Props/C13.lean", "LccModel/Props/C13Scan.lean", "LccModel/Props/C13Params.lean"]
+NAMESPACES = {"LccModel/Props/C13.lean": "LccModel.C13", "LccModel/Props/C13Scan.lean": "LccModel.C13Scan",
+              "LccModel/Props/C13Params.lean": "LccModel.C13Params"}
 DRIVER = "drivers/C13.lean"
 TRUSTED_BASE = [
     "Lean 4.33.0 kernel; axioms of the property theorems ⊆ {propext, Classical.choice, Quot.sound}",
@@ -180,6 +181,10 @@ def x_tests(tests, flags, in_class=False):
             out.append(dict(base, name=name, desc=desc, params=[]))
             continue
         flags.add("parametrized")
+        flags.add("source:" + p.get("style", "dict"))
+        if p.get("style") == "csv":
+            for part in L.header_class(p).split("+"):
+                flags.add("header:" + part)
         for idx, ps in enumerate(p["sets"], 1):
             if p["naming"] is None:
                 n, d = "%s_%d" % (name, idx), "%s #%d" % (desc, idx)
@@ -540,7 +545,14 @@ def _j_test(t):
     j = dict(_j_meta(t), attr=t["attr"], name=t.get("name"), desc=t.get("desc"), rank=t["rank"], vis=_j_vis(t.get("vis"), t["attr"]),
              disabled=t.get("disabled") or False, param=None)
     if t.get("param"):
-        j["param"] = {"sets": t["param"]["sets"], "naming": t["param"]["naming"]}
+        p = t["param"]
+        if p.get("style") == "csv":
+            # the source as WRITTEN: the header text and the rows; the model's `parseHeader` finds the names
+            j["param"] = {"header": L.csv_header(p), "rows": [[v for _, v in s] for s in p["sets"]], "naming": p["naming"]}
+        elif p.get("style") == "csvtuple":
+            j["param"] = {"names": L.csv_keys(p), "rows": [[v for _, v in s] for s in p["sets"]], "naming": p["naming"]}
+        else:
+            j["param"] = {"sets": p["sets"], "naming": p["naming"]}
     return j
 
 
@@ -836,6 +848,34 @@ CORPUS_SHAPES = [
 ]
 
 
+def _csv(keys, rows, pads, naming=None):
+    return {"sets": [[[k, v] for k, v in zip(keys, r)] for r in rows], "naming": naming, "style": "csv", "pads": pads}
+
+
+# string headers of the CSV-like form of @lcc.parametrized, as people write them (fourth seeded round): the parameter names are
+# the trimmed fields.  First the minimised failing input of the seeded change (one test, one field, one trailing blank), then
+# the spellings of the documentation, a column-aligned header, a header padded at both ends, tabs / newline, the other
+# characters str.strip() removes, a format naming scheme that reads the parameters by name, a method of a nested class
+HEADER_SPELLINGS = [
+    {"entry": "dir", "defect": None, "layout": {"name": "suites", "noise": False, "dirs": [], "mods": [
+        _m("params", tests=[_t("padded", param=_csv(["value"], [["foo"]], [["", " "]]))])]}},
+    {"entry": "dir", "defect": None, "layout": {"name": "suites", "noise": False, "dirs": [], "mods": [
+        _m("params", tests=[
+            _t("plain", pos=0, param=_csv(["i", "j"], [[1, 2], [3, 4]], [["", ""], ["", ""]])),
+            _t("spaced", pos=1, param=_csv(["i", "j"], [[1, 2], [3, 4]], [["", ""], [" ", ""]])),
+            _t("aligned", pos=2, param=_csv(["host", "port"], [["localhost", 80], ["example", 443]], [["", "      "], [" ", ""]])),
+            _t("padded", pos=3, param=_csv(["value"], [["foo"]], [[" ", " "]]))])]}},
+    {"entry": "file", "pick": "m", "defect": None, "layout": {"name": "suites", "noise": False, "dirs": [], "mods": [
+        _m("m", tests=[
+            _t("tabs", pos=0, param=_csv(["i", "j"], [[1, 2]], [["\t", "\t"], ["\t", "\n"]])),
+            _t("rare", pos=1, param=_csv(["i", "j", "k"], [[1, 2, 3], [4, 5, 6]], [["\xa0", "\u3000"], ["\x0c", "\x1f"], ["\u2028", "\x85"]])),
+            _t("named", pos=2, param=_csv(["i", "j"], [[1, "a"], [2, "b c"]], [[" ", "  "], ["  ", " "]],
+                                          naming={"name": [{"lit": "n_"}, {"field": "i"}, {"lit": "_"}, {"field": "j"}],
+                                                  "desc": [{"lit": "N "}, {"field": "j"}]}))],
+           classes=[_c("K", [], [_c("N", [_t("meth", param=_csv(["k"], [[7], [12]], [["      ", "\t"]]))], pos=3)], pos=4)])]}},
+]
+
+
 class Load(C.Stream):
     name = "C13.load"
     malformed = False
@@ -844,7 +884,7 @@ class Load(C.Stream):
     quick_seconds = 38
     thorough_seconds = 420
     chunk = 60
-    corpus = [WITNESS_D18, WITNESS_D36] + DROPPINGS + COND_SHAPES + CORPUS_SHAPES
+    corpus = [WITNESS_D18, WITNESS_D36] + DROPPINGS + COND_SHAPES + CORPUS_SHAPES + HEADER_SPELLINGS
 
     def gen(self, rng, i):
         lay = L.gen_layout(rng)
@@ -1118,6 +1158,59 @@ def scan_tables():
     finally:
         shutil.rmtree(top, ignore_errors=True)
 
+# header strings of the CSV-like form of @lcc.parametrized the real `_Parametrized.parameters_source` is asked about:
+# spellings of one / two / three fields with white space before / after each field, and every character below 0x100 plus the
+# Unicode spaces and their look-alikes as padding in all four positions
+HEADER_FIELDS = [["i"], ["i", "j"], ["host", "port"], ["a", "b", "c"], ["first name", "x"], ["value"], ["é", "j"]]
+HEADER_PADS = ["", " ", "  ", "      ", "\t", " \t ", "\n", "\r\n", "\x0c", "\xa0", "\u3000", "\u200b", "_", "\x00"]
+HEADER_PAD_CHARS = list(range(0x100)) + [0x1680, 0x180e] + list(range(0x1ff8, 0x2070)) + [0x2420, 0x3000, 0x3001, 0x303f, 0xfeff,
+                                                                                       0xe0020, 0x1d7d8]
+HEADER_LITERALS = ["", ",", " , ", "i,", ",j", "i,,j", " ", "i;j", "i ,j", "i, j", "i , j", " i,j ", "host      , port", " value ",
+                   "\ti\t,\tj\t", "i\n,j\n", "a b , c d", "i ,\tj, k "]
+
+
+def header_spellings():
+    out = list(HEADER_LITERALS)
+    for fields in HEADER_FIELDS:
+        for a in HEADER_PADS:
+            for b in HEADER_PADS[:8]:
+                out.append(",".join(a + f + b for f in fields))
+    for c in HEADER_PAD_CHARS:
+        ch = chr(c)
+        out.append(ch + "k" + ch + "," + ch + "j" + ch)
+    seen, uniq = set(), []
+    for h in out:
+        if h not in seen:
+            seen.add(h)
+            uniq.append(h)
+    return uniq
+
+
+def header_tables():
+    """Execute the REAL `_Parametrized(source, naming).parameters_source` (what `_load_parametrized_tests` iterates over) on a
+    CSV-like source whose first item is each header spelling and whose only row is 0, 1, 2, …: the keys of the dict it yields
+    are the parameter names the loader gives the test.  A dict cannot show a name that occurs twice; such headers are left out
+    (recorded: how many)."""
+    from lemoncheesecake.suite import builder
+    rows, skipped = [], 0
+    for h in header_spellings():
+        n = h.count(",") + 1
+        got = list(builder._Parametrized([h, tuple(range(n + 3))], None).parameters_source)
+        assert len(got) == 1 and type(got[0]) is dict
+        names = list(got[0].keys())
+        if len(names) != n or list(got[0].values()) != list(range(n)):
+            skipped += 1
+            continue
+        rows.append((_lean_chars(h), "[" + ", ".join(_lean_chars(x) for x in names) + "]", "header %r -> names %r" % (h, names)))
+    assert skipped <= 12, skipped
+    return rows
+
+
+def _thirds(rows):
+    n = (len(rows) + 2) // 3
+    return [rows[:n], rows[n:2 * n], rows[2 * n:]]
+
+
 # every generated value shape, plus a few more of the same shapes
 TABLE_PVS = L.FALSY_PVS + L.TRUTHY_PVS + [L._pv("int", v=-7), L._pv("int", v=10 ** 12), L._pv("float", k="fin", milli=1),
                                         L._pv("str", v="None"), L._pv("str", v="\x00"), L._pv("list", n=3), L._pv("tuple", n=2),
@@ -1265,4 +1358,8 @@ def tables(ctx):
         C.Table("testMethodCondTable", "List (Vis × (Bool × Nat))", rows_meth, imports),
         C.Table("classCondTable", "List (Vis × (Bool × Nat × Nat))", rows_cls, imports),
         C.Table("moduleCondTable", "List (Vis × (Bool × Bool × Bool))", rows_mod, imports),
+    ] + [
+        # (a list literal of more than ~1000 rows exceeds Lean's recursion depth: three parts)
+        C.Table("headerParseTable%d" % (k + 1), "List (List Char × List (List Char))", part, imports)
+        for k, part in enumerate(_thirds(header_tables()))
     ]
